@@ -297,7 +297,8 @@ def to_ip_port(hosts):
                 "hostname:port pairs (e.g. 'localhost:9200'), any additional options cannot "
                 "be supported."
             )
-        ip = net.resolve(host_or_ip)
+        # net.resolve() only returns non-loopback addresses, i.e. None for "localhost"
+        ip = "127.0.0.1" if host_or_ip == "localhost" else net.resolve(host_or_ip)
         ip_port_pairs.append((ip, port))
     return ip_port_pairs
 
